@@ -433,13 +433,13 @@ M("C05", "jsgf: top-level result ignored again", JS, """    if (expand_rule(gram
         grammar->rulestack = NULL;
         return NULL;
     }""", "    expand_rule(grammar, rule);", "ERRD.J1-refusal")
-M("C05", "jsgf: sub-expansion failure ignored", JS, "                if (expand_rule(grammar, subrule) == -1)\n                    return -1;", "                expand_rule(grammar, subrule);", "ERRD.J1-refusal")
+M("C05", "jsgf: sub-expansion failure ignored", JS, "                if (rv == -1)\n                    return -1;", "                (void)rv;", "ERRD.J1-refusal")
 M("C05", "jsgf: rhs failure treated as recursion", JS, "        if (lastnode == -1) {\n            return -1;\n        } else if (lastnode == RECURSION) {", "        if (lastnode == -1 || lastnode == RECURSION) {", "ERRD.J1-refusal")
 M("C05", "jsgf: stack reset dropped", JS, """    /* Forget any rule stack left over from a failed expansion. */
     glist_free(grammar->rulestack);
     grammar->rulestack = NULL;
     if (expand_rule""", "    if (expand_rule", "PAIR.J2-rulestack")
-M("C05", "jsgf: embedded recursion allowed", JS, """                if (gnode_next(gn) != NULL) {
+M("C05", "jsgf: embedded recursion allowed", JS, """                if (gnode_next(gn) != NULL || embedded) {
                     E_ERROR("Only right-recursion is permitted (in %s.%s)\\n",
                             grammar->name, rule->name);
                     return -1;
@@ -1372,3 +1372,22 @@ M("C17", "sendump: unterminated strings searched again (revert)", "src/ptm_mgau.
         }
 """, "", "SPAN")
 M("C17", "s3 header: magic compared without the length test (revert)", "src/s3file.c", """    if (s->ptr - line >= 3 && strncmp(line, "s3\\n", 3) == 0) {""", """    if (strncmp(line, "s3\\n", 3) == 0) {""", "SPAN")
+M("C05", "jsgf: recursion below a mark accepted again (revert)", "src/jsgf.c", "                if (gnode_next(gn) != NULL || embedded) {", "                if (gnode_next(gn) != NULL) {", "GUARD.J5-recursion")
+M("C05", "jsgf: mid-sequence rule not marked", "src/jsgf.c", """                if (gnode_next(gn) != NULL)
+                    grammar->rulestack = glist_add_ptr(grammar->rulestack, NULL);
+                rv = expand_rule(grammar, subrule);
+                if (gnode_next(gn) != NULL)
+                    grammar->rulestack = gnode_free(grammar->rulestack, NULL);""", """                rv = expand_rule(grammar, subrule);""", "GUARD.J5-recursion")
+M("C05", "jsgf: links cleared only after conversion (seed C05-3 core)", "src/jsgf.c", """    glist_free(grammar->links);
+    grammar->links = NULL;
+    rule->entry = rule->exit = 0;""", """    rule->entry = rule->exit = 0;""", "PAIR.J8-fresh-build")
+M("C08", "cmn import: vectors no longer cleared (seed C08-3 core)", "src/cmn.c", """    memset(cmn->cmn_mean, 0, sizeof(cmn->cmn_mean[0]) * cmn->veclen);
+    memset(cmn->sum, 0, sizeof(cmn->sum[0]) * cmn->veclen);
+    vallist = ckd_salloc(repr);""", """    vallist = ckd_salloc(repr);""", "RESET.G4-cmn-import")
+M("C03", "decoder_hyp: remembered hypothesis handed out", "src/decoder.c", """    ptmr_start(&d->perf);
+    hyp = search_module_hyp(d->search, out_best_score);""", """    if (d->search->hyp_str && out_best_score == NULL)
+        return d->search->hyp_str;
+    ptmr_start(&d->perf);
+    hyp = search_module_hyp(d->search, out_best_score);""", "PROV.S8-no-stale-result")
+M("C07", "feat live: cmn before the limiter (seed C07-3 core)", "src/feat.c", """    /* Only consume as much input as will fit in the buffer. */""", """    feat_cmn(fcb, uttcep, *inout_ncep, beginutt, endutt);
+    /* Only consume as much input as will fit in the buffer. */""", "ORDER.cmn-after-limit")
